@@ -1,0 +1,6 @@
+//go:build !verif
+
+package dnsserver
+
+// verifYield is a no-op outside of verification builds (build tag "verif").
+func verifYield(string) {}
